@@ -1,4 +1,4 @@
-import NixModel.Store.Api
+import NixModel.Store.Step
 
 /-!
 # `LinkContainer._accept` / `SourceLinkContainer._accept` / `append` / `extend`, statement by statement  (C05)
@@ -169,5 +169,49 @@ def Handle.node (g : Graph) (h : Handle) : Nat :=
 
 /-- the handle of the entity at a resolved location -/
 def Handle.ofLoc (l : Loc) : Handle := { parent := l.parent, lname := l.lname, key := l.key }
+
+/-! ## histories in which kept handles are offered
+
+`HOp` extends the path-addressed operations of `Store/Step.lean` by the calls a program makes with a handle it kept:
+`list.append(handle)`, `list.extend([…])` with handles and path-addressed items mixed, `multi_tag.positions = handle`
+(`extents`, `feature.data`), `tag.create_feature(handle, …)`.  The handle is resolved (`Handle.node`) in the graph
+the call meets. -/
+
+inductive ItemArg where
+  | key (k : KeyArg)
+  | handle (h : Handle)
+  deriving Repr, Inhabited
+
+def resolveItem (g : Graph) : ItemArg → Option Key
+  | .key k => resolveKeyArg g k
+  | .handle h => some (.ent (h.node g))
+
+inductive HOp where
+  | op (o : Op)
+  | appendH (owner : Path) (cname : String) (h : Handle)
+  | extend (owner : Path) (cname : String) (items : List ItemArg)
+  /-- `positions`, `extents` (of a multi-tag) or `data` (of a feature) -/
+  | setRoleH (owner : Path) (role : String) (h : Handle)
+  | createFeatureH (owner : Path) (h : Handle) (linkType : String)
+  deriving Repr, Inhabited
+
+def isLinkRole (role : String) : Bool := role == "positions" || role == "extents" || role == "data"
+
+def applyH (g : Graph) : HOp → Option (Except Err Graph)
+  | .op o => apply g o
+  | .appendH o c h => (openCont g o c).map fun cont => contAppend g cont (.ent (h.node g))
+  | .extend o c items =>
+    match openCont g o c, items.mapM (resolveItem g) with
+    | some cont, some keys => some (contExtend g cont keys)
+    | _, _ => none
+  | .setRoleH o r h => if isLinkRole r then some (setRole g o r (some (h.node g))) else none
+  | .createFeatureH o h lt => some (createFeature g o (some (h.node g)) lt)
+
+def stepH (g : Graph) (op : HOp) : Graph :=
+  match applyH g op with
+  | some (.ok g') => g'
+  | _ => g
+
+def runH (g : Graph) (ops : List HOp) : Graph := ops.foldl stepH g
 
 end Nix.Store
